@@ -16,7 +16,7 @@ def first_menu(env):
         return ['eof', 'hs-ok', 'hs-deflate', 'hs-partial', 'hs-404', 'hs-oversize', 'err']
     if env.phase != 'open':
         return ['eof']
-    m = ['eof', 'text', 'frag-text', 'partial-frame', 'ping', 'close-1000', 'close-trunc-reason', 'bad-utf8', 'silence', 'err']
+    m = ['eof', 'text', 'frag-text', 'partial-frame', 'partial-header', 'partial-len16', 'partial-len64', 'ping', 'close-1000', 'close-trunc-reason', 'bad-utf8', 'silence', 'err']
     if env.deflate:
         m += ['comp-text', 'comp-frag', 'comp-garbage']
     return m
@@ -43,7 +43,7 @@ class Env(object):
         ws = world._ws
         menu = first_menu(self)
         if self.in_message:
-            menu = [m for m in menu if m not in ('text', 'frag-text', 'comp-text', 'comp-frag', 'partial-frame', 'bad-utf8', 'comp-garbage')]
+            menu = [m for m in menu if m not in ('text', 'frag-text', 'comp-text', 'comp-frag', 'partial-frame', 'partial-header', 'partial-len16', 'partial-len64', 'bad-utf8', 'comp-garbage')]
         if self.steps >= self.depth:
             menu = ['eof']
         if self.ex is not None:
@@ -83,6 +83,9 @@ class Env(object):
         if name == 'frag-text':
             self.in_message = True
             return W.Data(SFrame(TEXT, b'half \xe2\x82', fin=0).encode())
+        if name in ('partial-header', 'partial-len16', 'partial-len64'):
+            self.phase = 'dead'             # the connection ends inside a frame header
+            return W.Data({'partial-header': b'\x82', 'partial-len16': b'\x82\x7e\x01', 'partial-len64': b'\x81\x7f\x00\x00\x00'}[name])
         if name == 'partial-frame':
             self.phase = 'dead'             # only EOF may follow a truncated frame
             return W.Data(SFrame(BINARY, b'0123456789').encode()[:5])
